@@ -113,6 +113,30 @@ def run(ctx, escalated=False):
                      "symlink": ctx.rng.random() < 0.25})
         c.pgen = pg
         cases.append(c)
+    # a sampling study: a parameter table of a few thousand rows (the stored study runs to a few hundred
+    # KiB) of which the steps use a constant column or none, so that it stays a handful of instances
+    for j in range(1 if quick else 8):
+        rows = ctx.rng.randint(2500, 4000)
+        big = {"description": {"name": "sampling", "description": "a large parameter table"},
+               "global.parameters": {
+                   "X": {"values": [round(ctx.rng.uniform(0, 1), 6) for _ in range(rows)], "label": "X.%%"},
+                   "Y": {"values": [ctx.rng.randint(0, 10 ** 6) for _ in range(rows)], "label": "Y.%%"},
+                   "MODE": {"values": ["fast"] * rows, "label": "MODE.%%"}},
+               "study": [{"name": "prepare", "description": "no parameters", "run": {"cmd": "echo prepare"}},
+                         {"name": "run", "description": "constant column",
+                          "run": {"cmd": "echo $(MODE) $(prepare.workspace)", "depends": ["prepare"]}}]}
+        c = expprop.one_case(ctx, "big%d" % j, adversarial=False, pgen=False, spec=big)
+        if c is None or c.dag is None:
+            continue
+        c.data = {"id": "big%d" % j, "kind": "handoff-large", "rows": rows, "hash_ws": c.data["hash_ws"],
+                  "rlimit": c.data["rlimit"], "spec": big}
+        c.lines, c.impl_out = [], []
+        spec = json.loads(json.dumps(big))
+        spec["env"] = {"variables": {}}
+        jobs.append({"id": c.data["id"], "spec": spec, "hash_ws": c.data["hash_ws"], "rlimit": c.data["rlimit"],
+                     "pgen": 0, "batch": ctx.rng.choice(BATCHES), "throttle": 0, "attempts": 1, "symlink": False})
+        c.pgen = 0
+        cases.append(c)
     # the model comparison only applies to the studies without generator changes
     # (the model lines were built before pgen_variant); hand-off equality applies to all
     stored = c11.run_workers(ctx, jobs, [ctx.rng.choice([0, 5, 11])], mode="store")[0]
